@@ -7,6 +7,18 @@ HERE = os.path.dirname(os.path.dirname(os.path.abspath(__file__)))
 
 # id -> (level category, technique, level text, level note, design ref)
 CHECKS = {
+ "C04": ("exploration", "differential PBT: loaded voice vs independent .htsvoice reader + glob tree walk, generated voice files (round-trip through own writer)",
+         "Thousands of generated labels against all 18 trees of the bundled voice and thousands of generated voice files (all header/tree/PDF shapes of the quantifier) compared bit-for-bit with an independent reader and, for generated files, with the written spec. Sampling, not proof: question semantics are only exercised on the corpus-derived label domain.",
+         "Trusts the harness's own reader/glob matcher (cross-validated against the written VoiceSpec) and jlabel's Display as 'the label text'.", "4/C04"),
+ "C05": ("exploration", "differential PBT: banded LDL solution vs dense Gaussian-elimination solve of the normal equations built from the definition",
+         "Generated streams over the whole quantifier (states, durations, vector lengths, window sets incl. width 5, voicing patterns incl. islands and all-unvoiced) compared with an independent dense solve at relative 1e-9.",
+         "Trusts the harness's construction of W and U^-1 from the property text; GV off; variances within [0.05,3].", "4/C05"),
+ "C08": ("exploration", "PBT against the closed-form speed law + engine-level wiring check",
+         "Tens of thousands of generated duration models x speeds checked against the exact law (round, floor, monotonicity), plus bundled-voice utterances through Engine at generated speeds.",
+         "Half-way ties within 1e-9 accept either neighbour; the engine layer takes the duration Gaussians from the public Models API.", "4/C08"),
+ "C09": ("exploration", "PBT against the alignment law (cumulative-frame oracle + reference duration fit), label-time conversion oracle, engine-level wiring",
+         "Generated time annotations (known/unknown subsets, non-monotone, zero-length, exact .5 frames, up to minutes) on generated duration models, generated label text with times, and engines with rate/frame-period overrides.",
+         "Distribution inside a group is compared with a reference of the HTS fitting rule only when no tie (margin 1e-9) makes it ambiguous.", "4/C09"),
  "C20": ("exploration", "model-based PBT (proptest): random setter histories vs reference model of the documented clamps",
          "Generated setter-call histories (thousands per run, arguments biased to bounds/subnormals/huge values) compared after every call with an explicit reference model; shows absence of clamp/round-trip errors on the explored histories, not for all f64.",
          "Trusts the doc comments of the setters as the specification of the ranges; finite arguments only.", "4/C20"),
